@@ -795,6 +795,7 @@ impl Scenario for S4 {
         // a common factor on all weights (total weight over smallest weight is unchanged): products of a
         // centroid's sum and another one's count then overflow / underflow f64 although every sum, count and
         // mean is perfectly representable
+        let overflow_one_sided = prop == "C16" && weighted && !tiny_weights && g.chance(1, 12);
         let wfactor: f64 = if weighted && !tiny_weights && g.chance(1, 8) { *g.pick(&[1e160, 1e-170, 1e120, 1e-100]) } else { 1.0 };
         let read_rate = *g.pick(&[0u64, 0, 1, 5, 20, 100, 500, 1000]); // per mille, per insert
         let n_checks = g.range(0, 3);
@@ -813,7 +814,13 @@ impl Scenario for S4 {
                 } else {
                     10f64.powf((g.f64() * 2.0 - 1.0) * wspan)
                 };
-                ops.push(DOp::InsW(if tiny_weights && g.chance(1, 50) { -0.0 } else { x }, w * wfactor));
+                if overflow_one_sided && g.chance(1, 20) {
+                    // value times weight exceeds f64::MAX (positive side only): sum() and mean() are
+                    // lost to overflow, count(), min(), max() and is_empty() are not
+                    ops.push(DOp::InsW(1e300 * (1.0 + g.f64()), 1e10 * (1.0 + g.f64())));
+                } else {
+                    ops.push(DOp::InsW(if tiny_weights && g.chance(1, 50) { -0.0 } else { x }, w * wfactor));
+                }
             } else {
                 ops.push(DOp::Ins(x));
             }
